@@ -1,6 +1,9 @@
 #!/bin/sh
-# usage: dbg.sh file line  -> prints goal state at that line (before executing it)
-f=$1; n=$2
-head -n $((n-1)) $f > /tmp/dbg_tmp_$$.v
-echo "Show. " >> /tmp/dbg_tmp_$$.v
-cd /verif/coq && coqtop -Q Lib Verif.Lib -Q Gen Verif.Gen -Q Model Verif.Model -Q Proofs Verif.Proofs -Q Corr Verif.Corr -batch -l /tmp/dbg_tmp_$$.v 2>&1 | tail -${3:-40}
+# usage: dbg.sh <file relative to /verif/coq> <line> [tail-lines]
+# prints the proof state just before that line
+cd /verif/coq || exit 1
+f=$1; n=$2; t=/tmp/dbg_tmp_$$.v
+head -n $((n-1)) "$f" > $t
+echo "Show. " >> $t
+coqtop -Q Lib Verif.Lib -Q Gen Verif.Gen -Q Model Verif.Model -Q Proofs Verif.Proofs -Q Corr Verif.Corr -batch -l $t 2>&1 | tail -${3:-40}
+rm -f $t
